@@ -518,17 +518,48 @@ func (x *run) act(a string) bool {
 		} else if a[0] == 'E' {
 			x.blocked, x.blockedBy = true, "l"+strconv.Itoa(c)
 		}
-	case a == "I":
+	case a[0] == 'I':
+		// I or I<children>: a message whose children are, in this order,
+		// b body, s subject, l legacy direct-invitation x, u unrelated payload,
+		// m muc#user x with one invite, M muc#user x with two invites, d muc#user x with a decline only
 		if x.blocked {
 			return false
 		}
-		x.trace = append(x.trace, a)
+		kids := a[1:]
+		if kids == "" {
+			kids = "m"
+		}
+		x.trace = append(x.trace, "I"+kids)
 		before := x.inv
-		x.feed(`<message xmlns="jabber:client" from="room0@conf.example.net" to="me@example.net/h"><x xmlns="http://jabber.org/protocol/muc#user"><invite from="friend@example.net/x"><reason>come</reason></invite></x></message>`)
+		var sb strings.Builder
+		sb.WriteString(`<message xmlns="jabber:client" from="room0@conf.example.net" to="me@example.net/h">`)
+		want := 0
+		for _, k := range kids {
+			switch k {
+			case 'b':
+				sb.WriteString(`<body>you are invited</body>`)
+			case 's':
+				sb.WriteString(`<subject>invitation</subject>`)
+			case 'l':
+				sb.WriteString(`<x xmlns="jabber:x:conference" jid="room0@conf.example.net"/>`)
+			case 'u':
+				sb.WriteString(`<thread xmlns="urn:verif">t</thread>`)
+			case 'm':
+				sb.WriteString(`<x xmlns="http://jabber.org/protocol/muc#user"><invite from="friend@example.net/x"><reason>come</reason></invite></x>`)
+				want = 1
+			case 'M':
+				sb.WriteString(`<x xmlns="http://jabber.org/protocol/muc#user"><invite from="friend@example.net/x"/><invite from="other@example.net/y"/></x>`)
+				want = 1
+			case 'd':
+				sb.WriteString(`<x xmlns="http://jabber.org/protocol/muc#user"><decline from="friend@example.net/x"/></x>`)
+			}
+		}
+		sb.WriteString(`</message>`)
+		x.feed(sb.String())
 		x.sync()
 		x.callbacks()
-		if x.inv-before != 1 {
-			x.r.Fail("invite-once", fmt.Sprintf("callback-called-%d-times", x.inv-before), x.lines(), "a mediated invitation must reach HandleInvite exactly once")
+		if x.inv-before != want {
+			x.r.Fail("invite-once", fmt.Sprintf("callback-called-%d-times-want-%d:first-child-%c", x.inv-before, want, kids[0]), x.lines(), fmt.Sprintf("message children %q: HandleInvite was called %d times, the message carries %d mediated invitation element(s)", kids, x.inv-before, want))
 		}
 	case a == "N":
 		if x.blocked {
@@ -639,6 +670,10 @@ var corpus = []struct {
 	{"0,1", "J0,s0,J1,s1,A1,A0,U1,A7,U7,I,N,L0,l0,U0"},
 	{"0,1", "A0,U0,A1,I,N,J1,s1,A0,A1"},         // presences for rooms never joined
 	{"0", "J0,Ej0,s0,J0,s0,A0"},
+	// mediated invitations: the payload first, last, between other children; two invites in one x;
+	// messages without an invitation (body only, legacy direct invitation only, decline)
+	{"0", "Im,Ibm,Imb,Ibsm,Ilm,Iml,Iulbms,Isubml,IM,IbM"},
+	{"0", "Ib,Il,Ibl,Iu,Id,Ibd,N,Im"},
 	// two channels for one occupant address: the second is refused, the first keeps following the room
 	{"0,0", "J0,s0,A0,J1,U0,J1,s1,A0,U0"},
 	{"0,0", "J0,J1,s0,A0,J1,Xj0"},
@@ -700,7 +735,18 @@ func randSched(rnd *common.Rand, n, length int) []string {
 		case 17:
 			out = append(out, "Xl"+c)
 		case 18:
-			out = append(out, "I")
+			// a mediated invitation among other children, in a random order
+			kids := []byte("m")
+			for _, k := range "bslu" {
+				if rnd.Chance(1, 2) {
+					kids = append(kids, byte(k))
+				}
+			}
+			for i := len(kids) - 1; i > 0; i-- {
+				j := rnd.Intn(i + 1)
+				kids[i], kids[j] = kids[j], kids[i]
+			}
+			out = append(out, "I"+string(kids))
 		default:
 			out = append(out, "N")
 		}
